@@ -55,23 +55,23 @@ class Finding:
 # evaluation, abstract interpretation, registry / catalogue set comparison, ownership analysis ...).  Every other rule
 # recognises a construct by its shape; a mismatch there is only evidence that the construct was rewritten.
 SEMANTIC_RULES = {
-    "C01": {"R1", "R3", "R4", "E2E"},
+    "C01": {"R1", "R3", "R4", "E2E", "XB"},
     "C02": {"R1", "R2", "R3", "R5", "R7", "R8", "R9"},
     "C03": {"R1", "R4", "R5", "R6", "R7", "R6v", "R8v", "R9v", "R3v", "R10v"},
     "C04": {"R1", "R2", "R3", "R4", "R9", "R10", "R11"},
     "C05": {"R1", "R2", "R3", "R6", "R8", "R9", "R10"},
     "C06": {"R1", "R2", "R3", "R4", "R5", "R6v", "R8", "R8v", "R9v"},
     "C07": {"R1p", "R1s", "R1v", "R2", "R4", "R5v"},
-    "C08": {"G2", "G6r", "G6v", "G8", "G8v", "G9"},
+    "C08": {"G2", "G6r", "G6v", "G8", "G8v", "G9", "XS"},
     "C09": {"R4", "R5", "R2v"},
     "C10": {"ENTRY", "PRIMv", "CLONEv", "STATE", "BACKEND", "FTYPE", "OWN", "IMM", "UPD"},
-    "C11": {"R1", "R5", "R6", "R7", "R9"},
+    "C11": {"R1", "R5", "R6", "R7", "R9", "XN"},
     "C13": {"UNIQ", "LCA", "SIZED", "CONST", "XMODEL", "CONSTREJ", "DET", "EXPRv"},
     "C14": {"R1m", "R1t", "R1v", "R2", "R5"},
     "C16": {"CLONEv", "R4v", "R6", "R7", "R8", "R9a", "R2v"},
     "C17": {"R1", "R2", "R5", "R6", "R6w", "R3w", "R7v"},
     "C18": {"R1", "R2", "R3", "R4", "R5", "R3v", "R1v", "R1w"},
-    "C19": {"R1", "R2", "R3", "R3b", "R4", "R8", "R9", "R10", "R11", "A12", "R12"},
+    "C19": {"R1", "R2", "R3", "R3b", "R4", "R8", "R9", "R10", "R11", "A12", "R12", "XE"},
 }
 
 
@@ -130,7 +130,7 @@ class Check:
         t = ctext + " " + (message or "")[:80]
         return any(k in t for k in ("interpreted", "compile_query with ", "source table cache:", "from_ast(", "SELECT #", "[identity]", "[columns]",
                                     "[scope]", "[grouping]", "[missed-hazard]", "[alias-not-enough]", "[over-eager]", "[parent-modified]",
-                                    "recompile:", "compile-error:", "clause:", "statement-shape:"))  # fmt: skip
+                                    "recompile:", "compile-error:", "clause:", "statement-shape:", " compiles to ", "evaluated for "))  # fmt: skip
 
     def _ob(self, rule, module, node, construct, good, message, extra=None):
         self.obligations += 1
